@@ -164,6 +164,24 @@ def b3(e: Engine, rep: Report):
     outer = [n for n in g.of_kind('iter') if isinstance(n.ast, ast.For) and
              'recipients' in ast.unparse(n.ast.iter)]
     if not outer:
+        # other grouping idioms
+        src = ast.unparse(ctx.func.node)
+        gb = [n for n in walk_own(ctx.func.node) if isinstance(n, ast.Call)
+              and ast.unparse(n.func).endswith('groupby')]
+        if gb:
+            srt = all(isinstance(c.args[0], ast.Call) and
+                      ast.unparse(c.args[0].func) == 'sorted'
+                      for c in gb if c.args)
+            rep.evaluations += 1
+            rep.check(srt, 'B3', where,
+                      'groups are keyed by reply equality',
+                      'itertools.groupby only merges ADJACENT equal keys; '
+                      'the (reply, recipient) pairs are not sorted by '
+                      'reply first, so equal replies that are not adjacent '
+                      'end up in separate groups: several bounces for one '
+                      'failure reply', loc=ctx.func.loc(gb[0]),
+                      reason='groupby over input sorted by the same key')
+            return
         rep.error('anchor vanished: recipient loop in _split_by_reply')
         return
     lp = outer[0]
